@@ -184,6 +184,18 @@ func VH_C05() {
 		vsym.Assert(setVersioning(h, "Enabled").Code() == 200, "C05/enable-status")
 		m.mode = 1
 	}
+	// optional fixed prefix of the history: that many puts of key k
+	for i := 0; i < vsym.Param("preputs", 0); i++ {
+		body := []byte{byte('a' + i)}
+		r := Do(h, BodyReq("PUT", "/bkt/k", nil, body))
+		vsym.Assert(r.Code() == 200, "C05/put-status")
+		if m.mode == 1 {
+			m.stack["k"] = append(m.stack["k"], verEntry{id: r.Hdr.Get("x-amz-version-id"), body: body, enabled: true})
+		} else {
+			m.removeID("k", "")
+			m.stack["k"] = append(m.stack["k"], verEntry{body: body})
+		}
+	}
 	n := vsym.Param("steps", 3)
 	for i := 0; i < n; i++ {
 		c05Step(h, m, keys)
